@@ -295,6 +295,7 @@ class C15(Prop):
             if first is not None and (not where or where[0] > first):
                 return {"kind": "not-run-at-trigger", "event": first, "pos": pos,
                         "trigger": "upstream" if first != script_first else "script",
+                        "trigger_ev": case.events[first][0],
                         "detail": f"{m} " + ("never ran" if not where else f"ran only at event {where[0]}") +
                                   f" although event {first} ({sx.show(case.events[first])}) ends the subscription"}
             if where:
@@ -355,7 +356,10 @@ class C15(Prop):
         if failure["kind"] == "not-run-at-trigger":
             # an operator between the finalizer and the probe that completes by itself?
             pos = failure.get("pos", 0)
-            shape = "early-op-downstream" if any(e[0] in EARLY for e in chain[pos + 1:]) else shape
+            # (the known finding is about a SOURCE TERMINAL that the subject no longer hands to a finished
+            # observer; an `unsubscribe()` after which the callback has not run is a different violation)
+            if failure.get("trigger_ev", "emit") == "emit":
+                shape = "early-op-downstream" if any(e[0] in EARLY for e in chain[pos + 1:]) else shape
             if failure.get("trigger") == "upstream":
                 # the terminal comes from an operator ABOVE the finalizer, not from the subject (which is what
                 # the known finding is about): a different violation
